@@ -477,7 +477,15 @@ def check_journal_position(ctx):
     C04.check_position(ctx, "C09.journal-position")
 
 
+
+def check_requeue(ctx):
+    """see rules.common.check_requeue_whole: every prepared write of a failed batch is requeued"""
+    from rules import common as _c
+    _c.check_requeue_whole(ctx, "C09.requeue")
+
+
 def check(ctx):
+    check_requeue(ctx)
     check_journal_position(ctx)
     check_successor(ctx)
     check_completion(ctx)
